@@ -12,7 +12,7 @@ from ..ref import http as refhttp
 LEVEL = 'exploration'
 TECHNIQUE = 'runtime monitoring: strict request parser and reactive reply generator with ground-truth expectations'
 BUDGET_S = {'quick': 30, 'thorough': 200}
-REQUIRED = {'all': ['request.parsed', 'request.keys_compared', 'reply.judged', 'reply.expect_ready', 'reply.expect_rejected',
+REQUIRED = {'all': ['overlap.attempts_overlapped', 'request.parsed', 'request.keys_compared', 'reply.judged', 'reply.expect_ready', 'reply.expect_rejected',
                     'reply.expect_protocol_error']}
 RULE = ('request side: URL shapes x options; the first bytes written are parsed by the strict request parser of '
         'vf/ref/http.py and compared with the URL/options; keys of N connects (same object and fresh objects) '
@@ -190,6 +190,31 @@ def run_req(case, acc):
     hdrs = [(bytes(a), bytes(b)) for a, b in opt.get('headers', [])]
     w = H.World(H.hs_server([('eof',)]))
     run = H.drive(w, url=url, ws_kwargs=wskw, headers=hdrs, connect_kwargs=dict(ping_rate=0))
+    key, detail = judge_request(w, case, hdrs, acc)
+    if key is None:
+        # "each connection attempt sends one well-formed request ... custom headers": the next attempt on the object,
+        # after the application has added a header (a refreshed token), carries all of them - once
+        run.ws.add_header(b'X-Added-Later', b'between two connections')
+        hdrs2 = hdrs + [(b'X-Added-Later', b'between two connections')]
+        w2 = H.World(H.hs_server([('eof',)]))
+        H.drive(w2, ws=run.ws, connect_kwargs=dict(ping_rate=0))
+        key, detail = judge_request(w2, case, hdrs2, acc)
+        if key is None and refhttp.request_key(bytes(w2.conns[0].tx)) == refhttp.request_key(bytes(w.conns[0].tx)):
+            key = 'handshake-key-not-fresh'
+        if key:
+            key += ':second-attempt-on-the-object'
+    if key:
+        acc.violation(key, 'C10 request %s for %s %r' % (key, url, opt), case, detail)
+    else:
+        acc.cls('req/%d/%d' % (case['url'], case['opt']))
+        if case['opt'] == 2 and case['url'] in (3, 8):
+            acc.sample(dict(url=url, request=detail['request'].decode('latin-1')[:300]))
+
+
+def judge_request(w, case, hdrs, acc):
+    url, host, port, resource, secure = URLS[case['url']]
+    hosta = '[%s]' % host if ':' in host else host          # as it appears in an authority
+    opt = OPTS[case['opt']]
     acc.count2('request', 'parsed')
     key = None
     detail = dict(url=url, opt=opt)
@@ -242,6 +267,8 @@ def run_req(case, acc):
                 for hn, hv in hdrs:
                     if hv not in hm.get(hn.lower(), []):
                         key = 'custom-header-missing'
+                    elif hm.get(hn.lower(), []).count(hv) != [tuple(x) for x in hdrs].count((hn, hv)):
+                        key = 'custom-header-repeated'
                 protos = opt.get('protocols')
                 offered = b','.join(hm.get(b'sec-websocket-protocol', []))
                 got_p = [t.strip().decode() for t in offered.split(b',') if t.strip()]
@@ -254,12 +281,7 @@ def run_req(case, acc):
                     key = 'user-agent-wrong'
                 if len(raw) != end + 4:
                     key = 'bytes-after-request'
-    if key:
-        acc.violation(key, 'C10 request %s for %s %r' % (key, url, opt), case, detail)
-    else:
-        acc.cls('req/%d/%d' % (case['url'], case['opt']))
-        if case['opt'] == 2 and case['url'] in (3, 8):
-            acc.sample(dict(url=url, request=detail['request'].decode('latin-1')[:300]))
+    return key, detail
 
 
 def run_keys(case, acc):
